@@ -95,7 +95,9 @@ def plan(ctx):
     names = sorted(registry(n).Meta.name for n in registry.all())
     X = fam.examples()
     pool = X + fam.M + fam.Q + fam.MQ
-    special = ['a:NFn:Gm:SxFx', 'KMaMb:Mc', 'AKabKcd:e', 'b:VxFx:SxGx', 'LMa:LLMa']
+    special = ['a:NFn:Gm:SxFx', 'KMaMb:Mc', 'AKabKcd:e', 'b:VxFx:SxGx', 'LMa:LLMa',
+               # repeated premises, premise equal to the conclusion, deep forks
+               'b:a:a', 'c:Aab:Na:Aab', 'a:a', 'e:Aab:Acd:Aea']
     units = []
     for name in names:
         if ctx.quick:
@@ -139,7 +141,7 @@ def run(ctx):
         pairs=pairs, longest_proof=maxlen, skipped_longer_than_bound=skipped[:40],
         skipped_count=len(skipped),
         bounds=dict(arguments='examples + modal + first-order shapes (families/args.py), '
-                    + ('14 per logic by seed + 5 fixed' if ctx.quick else 'all + 30 random per logic'),
+                    + ('14 per logic by seed + 9 fixed' if ctx.quick else 'all + 30 random per logic'),
                     step_limit='k ranges over all integers (symbolic); one class per prefix',
                     proof_length=f'natural length <= {40 if ctx.quick else 120} steps',
                     options='defaults', order_seed=ctx.seed),
